@@ -23,6 +23,7 @@ theorem panicSites_ok : panicSites = ([
   "pkg/ip/net_set.go:ipNetMap.has idx=1 slice=0 assert=0 panic=1 mustcompile=0 timederef=0",
   "pkg/ip/realclientip.go:xForwardedForClientIPParser.GetRealClientIP idx=0 slice=1 assert=0 panic=0 mustcompile=0 timederef=0",
   "pkg/sessions/cookie/session_store.go:SessionStore.clearCookiesExcept idx=1 slice=0 assert=0 panic=0 mustcompile=0 timederef=0",
+  "pkg/sessions/cookie/session_store.go:SessionStore.dropWrittenSessionCookies idx=2 slice=0 assert=0 panic=0 mustcompile=0 timederef=0",
   "pkg/sessions/cookie/session_store.go:SessionStore.setSessionCookie idx=1 slice=0 assert=0 panic=0 mustcompile=0 timederef=0",
   "pkg/sessions/cookie/session_store.go:isSessionCookieName idx=0 slice=1 assert=0 panic=0 mustcompile=0 timederef=0",
   "pkg/sessions/cookie/session_store.go:joinCookies idx=3 slice=0 assert=0 panic=0 mustcompile=0 timederef=0",
